@@ -2130,8 +2130,11 @@ find_include(Filename &filename, bool angle_quotes, CPPFile::Source &source) con
     }
   }
 
-  // Now search the angle-include-path
-  if (angle_quotes && filename.resolve_filename(_angle_include_path)) {
+  // Now search the angle-include-path.  An empty DSearchPath stands for the
+  // current directory, which is not what an empty system path means.
+  if (angle_quotes &&
+      (!_angle_include_path.is_empty() || !filename.is_local()) &&
+      filename.resolve_filename(_angle_include_path)) {
     source = CPPFile::S_system;
     return true;
   }
